@@ -65,6 +65,9 @@ func runC08(tier string, seed uint64, o *Out) error {
 		c.ooo = []int64{0, c.size / 2, 3 * c.size}[rng.Intn(3)]
 		n := 5 + rng.Intn(36)
 		ops := genTimeOps(rng, c.slide, c.ooo, n, nil, rng.Intn(5) == 0)
+		if i%25 == 3 {
+			ops = overflowThenQuiet(rng, c.slide, nil)
+		}
 		if err := slidingLine(o, "C08", c, ops, fmt.Sprintf("size=%d slide=%d", c.size, c.slide)); err != nil {
 			return err
 		}
